@@ -30,8 +30,8 @@ type sliceIter struct {
 	pos  int
 }
 
-func (it *sliceIter) IsValid() bool     { return it.pos < len(it.objs) }
-func (it *sliceIter) Next()             { it.pos++ }
+func (it *sliceIter) IsValid() bool { return it.pos < len(it.objs) }
+func (it *sliceIter) Next()         { it.pos++ }
 func (it *sliceIter) Current() *c19Obj {
 	if it.pos < len(it.objs) {
 		return it.objs[it.pos]
